@@ -45,6 +45,25 @@ def parse_names(stdout, word_ok, word_bad):
 
 def run_case(runner, space, case):
     viol = []
+    if space == "c07" and "many" in case:
+        # N small stored members of which the listed number (taken from the front) are damaged: the exit status is a
+        # verdict about the whole run and may not depend on how many members failed
+        n, bad = case["many"], case["bad"]
+        arc = b"".join((corrupt if i < bad else (lambda m, h: m))(entry("f", b"", b"m%04d" % i, b"data %04d\n" % i, level=i % 3), "crc") for i in range(n))
+        r = runner.run(arc, [case["cmd"], "../archive.lzh"], stdin=b"", want_trees=False)
+        good, badset = parse_names(r.stdout, None, None)
+        if "q2" not in case["cmd"]:
+            rep_bad = [i for i in range(bad) if b"m%04d" % i in good]
+            if rep_bad:
+                viol.append(("c07-cli-bad-reported-good", "%s: damaged members %r reported good" % (case["cmd"], rep_bad[:5])))
+            miss = [i for i in range(bad, n) if b"m%04d" % i not in good]
+            if miss:
+                viol.append(("c07-cli-good-not-reported", "%s: intact members %r have no Tested/Melted line" % (case["cmd"], miss[:5])))
+        if (bad > 0) != (r.status != "exit:0"):
+            viol.append(("c07-cli-exit-status", "%s on %d members of which %d are damaged: %s" % (case["cmd"], n, bad, r.status)))
+        if not r.status.startswith("exit:") or r.status in ("exit:86", "exit:87"):
+            viol.append(("c07-cli-abnormal", "%s %r" % (r.status, r.stderr[:200])))
+        return {"transitions": n, "outcome": hash((r.status, len(good), len(badset))), "nontrivial": True, "violations": viol}
     if space == "c07":
         mem = three_members()
         names = [b"alpha.txt", b"dir/beta.bin", b"gamma"]
@@ -122,6 +141,12 @@ def cases_c07(thorough):
             for filters in (["alpha*"], ["*beta*", "gamma"], ["nomatch"], ["*a*"]):
                 for cmd in ("t", "xf"):
                     yield {"mask": mask, "how": how, "cmd": cmd, "filters": filters}
+
+
+    for n, bads in ((300, (0, 1, 2, 127, 128, 129, 255, 256, 257, 300)), (512, (256, 511, 512)), (1024 if thorough else 0, (512, 768, 1024))):
+        for bad in bads:
+            for cmd in ("t", "tq2", "xf", "xfq1") if n else ():
+                yield {"many": n, "bad": bad, "cmd": cmd}
 
 
 def cases_c08(thorough):
